@@ -174,7 +174,7 @@ func (r *c17Runner) judge(body, beh []byte) (aspect, msg string) {
 	}
 
 	aspect, msg = r.judgeReading(&r.p, r.want, f)
-	if aspect != "" && r.p.OverrunIsRepeatedMP {
+	if aspect != "" && r.p.OverrunIsRepeatedMP && repeatedMPOverrunMayAbort {
 		alt := r.p.AltRepeatedMP()
 		if a, _ := r.judgeReading(alt, updExpected(alt, nil), f); a == "" {
 			r.dcMP++
